@@ -21,6 +21,7 @@ import (
 	"sync"
 
 	"github.com/saucelabs/forwarder"
+	"github.com/saucelabs/forwarder/header"
 	"github.com/saucelabs/forwarder/log"
 	"github.com/saucelabs/forwarder/verifhook/mheader"
 
@@ -60,21 +61,122 @@ type srec struct {
 	Obs        sobs `json:"_obs"`
 }
 
+// ruleCfg is a --header / --connect-header / --credentials configuration.
+type ruleCfg struct {
+	Name  string   `json:"name"`
+	Req   []string `json:"header_rules"`
+	Conn  []string `json:"connect_header_rules"`
+	Creds []string `json:"credentials"`
+}
+
+var ruleCfgs = []ruleCfg{
+	{Name: "rules+host-credentials", Req: []string{"X-Added: by-proxy", "-X-B", "X-Empty;", "%x-custom-id", "-x-re*", "Cookie: extra=1"},
+		Creds: []string{"site:secret@example.com:8080"}},
+	{Name: "authorization-rule+global-credentials", Req: []string{"Authorization: Bearer from-rule", "-Referer"}, Creds: []string{"g:pw@*:0"}},
+	{Name: "global-credentials-only", Creds: []string{"user:p%40ss@*:0"}},
+	{Name: "connect-and-request-rules", Req: []string{"X-Req: 1", "-accept"}, Conn: []string{"X-Connect: 1", "-X-A"}},
+	{Name: "rules-on-documented-fields", Req: []string{"-User-Agent", "Via: 1.1 injected", "X-Forwarded-For: 9.9.9.9", "-x-forwarded-h*"}},
+}
+
+func parseRules(rs []string) []header.Header {
+	var out []header.Header
+	for _, r := range rs {
+		h, err := header.ParseHeader(r)
+		if err != nil {
+			panic(fmt.Sprintf("rule %q: %v", r, err))
+		}
+		out = append(out, h)
+	}
+	return out
+}
+
+// requestModifierFor is command/run configureHeadersModifiers' request modifier (the shape is pinned by the translator:
+// Tables.header_rules_dispatch_by_method).
+func requestModifierFor(c ruleCfg) forwarder.RequestModifier {
+	connectHeaders := header.Headers(parseRules(c.Conn))
+	requestHeaders := header.Headers(parseRules(c.Req))
+	return forwarder.RequestModifierFunc(func(req *http.Request) error {
+		if req.Method == http.MethodConnect {
+			return connectHeaders.ModifyRequest(req)
+		}
+		return requestHeaders.ModifyRequest(req)
+	})
+}
+
+func credentialsFor(c ruleCfg) *forwarder.CredentialsMatcher {
+	var hpus []*forwarder.HostPortUser
+	for _, e := range c.Creds {
+		hpu, err := forwarder.ParseHostPortUser(e)
+		if err != nil {
+			panic(err)
+		}
+		hpus = append(hpus, hpu)
+	}
+	cm, err := forwarder.NewCredentialsMatcher(hpus, log.NopLogger)
+	if err != nil {
+		panic(err)
+	}
+	return cm
+}
+
+func actN(a header.Action) int {
+	switch a {
+	case header.Remove:
+		return 0
+	case header.RemoveByPrefix:
+		return 1
+	case header.Empty:
+		return 2
+	case header.Add:
+		return 3
+	}
+	return 4
+}
+
+func coqRules(rs []string) string {
+	var parts []string
+	for _, h := range parseRules(rs) {
+		v := ""
+		if h.Value != nil {
+			v = *h.Value
+		}
+		parts = append(parts, fmt.Sprintf("mkr %d %s %s", actN(h.Action), coqfmt.Str(h.Name), coqfmt.Str(v)))
+	}
+	return coqfmt.List("G16.Model.rule", parts)
+}
+
+// coqCfg renders the configuration for one request; cred is what the real CredentialsMatcher answers for its URL.
+func coqCfg(c ruleCfg, cm *forwarder.CredentialsMatcher, u *url.URL) string {
+	cred := "None"
+	if ui := cm.MatchURL(u); ui != nil {
+		p, _ := ui.Password()
+		cred = fmt.Sprintf("(Some (%s, %s))", coqfmt.Str(ui.Username()), coqfmt.Str(p))
+	}
+	return fmt.Sprintf("{| p_request_rules := %s; p_connect_rules := %s; p_cred := %s |}", coqRules(c.Req), coqRules(c.Conn), cred)
+}
+
 type stackRig struct {
 	hp  *forwarder.HTTPProxy
 	tag string
+	cfg *ruleCfg
+	cm  *forwarder.CredentialsMatcher
 }
 
-func newStackRig(name string) (*stackRig, error) {
+func newStackRig(name string, rc *ruleCfg) (*stackRig, error) {
 	cfg := forwarder.DefaultHTTPProxyConfig()
 	cfg.Address = "127.0.0.1:0"
 	cfg.Name = name
 	cfg.ProxyLocalhost = forwarder.AllowProxyLocalhost
-	hp, err := forwarder.NewHTTPProxy(cfg, nil, nil, nil, log.NopLogger, nil)
+	var cm *forwarder.CredentialsMatcher
+	if rc != nil {
+		cfg.RequestModifiers = append(cfg.RequestModifiers, requestModifierFor(*rc))
+		cm = credentialsFor(*rc)
+	}
+	hp, err := forwarder.NewHTTPProxy(cfg, nil, cm, nil, log.NopLogger, nil)
 	if err != nil {
 		return nil, err
 	}
-	r := &stackRig{hp: hp}
+	r := &stackRig{hp: hp, cfg: rc, cm: cm}
 	req, _ := http.NewRequest(http.MethodGet, "http://example.com/", http.NoBody)
 	req.RemoteAddr = "10.0.0.1:1"
 	if err := hp.VerifC01ModifyRequest(req); err != nil {
@@ -122,6 +224,75 @@ func coqScase(tag string, c sreq, o sobs) string {
 		res = fmt.Sprintf("(SPassed %s %s)", coqfmt.Bool(o.Close), coqfmt.Header(o.Out))
 	}
 	return fmt.Sprintf("{| s_tag := %s; s_in := %s; s_out := %s |}", coqfmt.Str(tag), coqMreq(c, o.URL), res)
+}
+
+type crec struct {
+	sreq
+	Config ruleCfg `json:"config"`
+	Obs    sobs    `json:"_obs"`
+}
+
+func coqCcase(cr *stackRig, c sreq, o sobs) string {
+	res := ""
+	if o.Refused {
+		res = fmt.Sprintf("(SRefused %d)", o.Status)
+	} else {
+		res = fmt.Sprintf("(SPassed %s %s)", coqfmt.Bool(o.Close), coqfmt.Header(o.Out))
+	}
+	u := &url.URL{Scheme: c.Scheme, Host: c.Host, Path: c.Path, RawQuery: c.Query}
+	return fmt.Sprintf("{| c_cfg := %s; c_tag := %s; c_in := %s; c_out := %s |}", coqCfg(*cr.cfg, cr.cm, u), coqfmt.Str(cr.tag), coqMreq(c, o.URL), res)
+}
+
+func writeShardC(dir string, idx int, cases []string) error {
+	var sb strings.Builder
+	sb.WriteString("From G01 Require Import ReqCheck.\nOpen Scope N_scope.\n")
+	fmt.Fprintf(&sb, "Definition cases : list ccase :=\n  %s.\n", coqfmt.List("ccase", cases))
+	sb.WriteString("Definition M := Eval vm_compute in (bad ccase_model_ok cases).\n")
+	sb.WriteString("Definition P := Eval vm_compute in (bad ccase_prop_ok cases).\n")
+	sb.WriteString("Definition D := Eval vm_compute in (diag_bad cdiag cases).\n")
+	sb.WriteString("Print M.\nPrint P.\nPrint D.\n")
+	return os.WriteFile(filepath.Join(dir, fmt.Sprintf("ccases_%03d.v", idx)), []byte(sb.String()), 0o644)
+}
+
+// configuredStacks: the real stack of proxies configured with header rules and site credentials.
+func configuredStacks(r *rng.R, n int, m *meta) ([]string, []any) {
+	var cc []string
+	var cj []any
+	for ci := range ruleCfgs {
+		cr, err := newStackRig("forwarder", &ruleCfgs[ci])
+		if err != nil {
+			fmt.Fprintln(os.Stderr, "configured stack rig:", err)
+			os.Exit(4)
+		}
+		add := func(c sreq) {
+			o := cr.run(c)
+			cc = append(cc, coqCcase(cr, c, o))
+			cj = append(cj, crec{untagSreq(c, cr.tag), ruleCfgs[ci], o})
+			m.ConfiguredStackCases++
+		}
+		base := sreq{Method: "GET", Scheme: "http", Host: "example.com:8080", Path: "/p", Remote: "10.1.2.3:4567", Maj: 1, Min: 1}
+		for _, h := range []http.Header{
+			{},
+			{"Authorization": {"Bearer client"}},
+			{"Authorization": {""}},
+			{"Authorization": {"", "Bearer second"}},
+			{"Connection": {"authorization"}, "Authorization": {"Bearer nominated"}},
+			{"X-B": {"1"}, "X-Custom-Id": {"a", "b"}, "x-custom-id": {"c"}, "X-Req": {"client"}, "X-Real-Ip": {"1.2.3.4"}, "X-Re": {"x"}, "Cookie": {"a=b"}, "Referer": {"r"}},
+		} {
+			c := base
+			c.Header = h
+			add(c)
+			c.Method = "CONNECT"
+			add(c)
+			c.Method, c.Host = "GET", "other.example"
+			add(c)
+		}
+		for i := 0; i < n/len(ruleCfgs); i++ {
+			add(genSreq(r, cr.tag))
+		}
+		cr.hp.Close()
+	}
+	return cc, cj
 }
 
 var e2eNames = []string{"Accept", "Accept-Language", "Cookie", "X-A", "X-B", "X-Custom-Id", "Cache-Control", "Authorization", "Content-Type", "Range", "If-None-Match", "Referer", "Origin", "X-Real-Ip", "Forwarded", "Pragma"}
@@ -370,6 +541,7 @@ func writeMeta(dir string, m any) {
 
 type meta struct {
 	StackCases   int            `json:"stack_cases"`
+	ConfiguredStackCases int    `json:"configured_stack_cases"`
 	ConcurrentCalls   int       `json:"stack_concurrent_calls"`
 	ConcurrentEmitted int       `json:"stack_concurrent_cases_emitted"`
 	StackRefused int            `json:"stack_refused"`
@@ -403,7 +575,7 @@ func main() {
 	r := rng.New(*seed)
 	m := meta{StackMethods: map[string]int{}, StackShapes: map[string]int{}, ShardSize: 150, E2E: map[string]any{}}
 
-	sr, err := newStackRig("forwarder")
+	sr, err := newStackRig("forwarder", nil)
 	if err != nil {
 		fmt.Fprintln(os.Stderr, "stack rig:", err)
 		os.Exit(4)
@@ -419,6 +591,21 @@ func main() {
 		}
 		json.Unmarshal(data, &kind)
 		switch kind.Kind {
+		case "configured-stack":
+			var c crec
+			if err := json.Unmarshal(data, &c); err != nil {
+				panic(err)
+			}
+			cr, err := newStackRig("forwarder", &c.Config)
+			if err != nil {
+				panic(err)
+			}
+			c.sreq.Header = retagHeader(c.sreq.Header, cr.tag)
+			o := cr.run(c.sreq)
+			writeShardC(*out, 0, []string{coqCcase(cr, c.sreq, o)})
+			writeJSONL(*out, "ccases.jsonl", []any{crec{untagSreq(c.sreq, cr.tag), c.Config, o}})
+			m.Shards = []string{"ccases_000.v"}
+			fmt.Printf("replay configured stack %q: refused=%v status=%d out=%q\n", c.Config.Name, o.Refused, o.Status, o.Out)
 		case "stack":
 			var c srec
 			if err := json.Unmarshal(data, &c); err != nil {
@@ -496,6 +683,18 @@ func main() {
 	}
 	writeJSONL(*out, "scases.jsonl", sj)
 	m.Samples = append(m.Samples, sj[len(sj)-1])
+
+	nCfg := 300
+	if *tier == "thorough" {
+		nCfg = 4000
+	}
+	cc, cj := configuredStacks(r, nCfg, &m)
+	for i := 0; i*m.ShardSize < len(cc); i++ {
+		hi := min((i+1)*m.ShardSize, len(cc))
+		writeShardC(*out, i, cc[i*m.ShardSize:hi])
+		m.Shards = append(m.Shards, fmt.Sprintf("ccases_%03d.v", i))
+	}
+	writeJSONL(*out, "ccases.jsonl", cj)
 
 	runE2E(r, *tier, *out, &m)
 	writeMeta(*out, m)
